@@ -281,7 +281,7 @@ def check_recipe(ctx, rec, method, headers, wrapper):
         if wrapper == "direct":
             app = recipes.app_from(ns, rec)
         else:
-            view = recipes.app_from(ns, {"app": "view", "response": rec})
+            view = recipes.app_from(ns, {"app": "view", "response": rec, "aborts": rec.get("view_aborts")})
             if wrapper in ("decorator", "decorator+middleware"):
                 if iface == "wsgi":
                     @ns.decorator
@@ -473,6 +473,10 @@ def run(ctx):
             hdrs.append(("If-Range", rng.choice(['"nope"', "", "Wed, 21 Oct 2015 07:28:00 GMT"])))
         method = rng.choice(["GET", "GET", "GET", "HEAD", "HEAD", "POST", "DELETE", "OPTIONS", "PUT"])
         wrapper = rng.choice(["direct", "direct", "view", "decorator", "middleware", "decorator+middleware"])
+        if wrapper != "direct" and rng.random() < 0.12:
+            # the view gives up with the library's HTTPException: whatever becomes of it (an answer, the exception passed on), both interfaces agree
+            rec = dict(rec, view_aborts={"status": rng.choice([400, 403, 404, 418, 500]), "headers": rng.choice([None, {"X-Why": "because"}, {"Retry-After": "5"}]),
+                                         "content": rng.choice([None, "plain words", b"bytes \xff content", {"detail": "a dict"}, 42, ""])})
         if rec["cls"] in ("PlainText", "HTML") and isinstance(rec["content"], bytes) and rng.random() < 0.5:
             rec["content_as"] = rng.choice(["bytearray", "memoryview"])  # other bytes-like objects as content
         check_recipe(ctx, rec, method, hdrs, wrapper)
